@@ -212,3 +212,29 @@ func TestGen(t *testing.T) {
 		t.Fatal(c.Mismatch)
 	}
 }
+
+func TestCheckHeader(t *testing.T) {
+	id := func(wfk []byte, kw int, name string) ([]byte, error) { return wfk, nil }
+	doc, _ := Encrypt([]byte("hello"), EncryptOptions{KeyName: "k", KW: KWA256KW, Cipher: CipherAESGCM, Wrap: func(k []byte) ([]byte, error) { return k, nil }})
+	d, _ := Parse(doc)
+	h := doc[:d.HeaderLen]
+	if v, n, _ := CheckHeader(h, id); v != HeaderAuthentic || n != len(h) {
+		t.Fatal(v, n)
+	}
+	if v, _, _ := CheckHeader(doc[:len(doc)-3], id); v != HeaderAuthentic {
+		t.Fatal("payload must not matter", v)
+	}
+	cr := append(append(append([]byte{}, h[:len(h)-1]...), '\r'), '\n')
+	if v, _, _ := CheckHeader(cr, id); v != HeaderMACSpelling {
+		t.Fatal(v)
+	}
+	for _, edit := range [][2]string{{`"k":`, `"K":`}, {`{"k"`, `{ "k"`}, {`"cph":1`, `"cph":1,"x":0`}, {`"cph":1`, `"cph":2`}} {
+		e := bytes.Replace(h, []byte(edit[0]), []byte(edit[1]), 1)
+		if v, _, _ := CheckHeader(e, id); v != HeaderRejected {
+			t.Fatalf("%q: %v", edit[1], v)
+		}
+	}
+	if v, n, _ := CheckHeader(h[:len(h)-1], id); v != HeaderRejected || n != -1 {
+		t.Fatal(v, n)
+	}
+}
